@@ -16,8 +16,9 @@ import warnings
 
 VERIF = os.path.dirname(os.path.dirname(os.path.abspath(__file__)))
 REPO = os.environ.get('VERIF_REPO', '/repo')
-LEAN = os.path.join(VERIF, 'lean', 'FFVerif')
+LEAN = os.environ.get('VERIF_LEAN_DIR') or os.path.join(VERIF, 'lean', 'FFVerif')      # (the self-test harness points this at a scratch copy)
 DRIVER = os.path.join(LEAN, '.lake', 'build', 'bin', 'ffdriver')
+REPLAYS = os.environ.get('VERIF_REPLAY_DIR') or os.path.join(VERIF, 'replays')
 ALLOWED_AXIOMS = {'propext', 'Classical.choice', 'Quot.sound'}
 TRUSTED_BASE_COMMON = [
     'Lean 4.33 kernel (lake build); axioms audited per theorem: subset of {propext, Classical.choice, Quot.sound}',
@@ -431,12 +432,12 @@ def finish(res, level='proof'):
     new_fail.sort(key=_size)
     for sig, f in known_hit.items():
         print(f"KNOWN-FINDING: property={pid} {known_sigs[sig]['what']}")
-    os.makedirs(os.path.join(VERIF, 'replays'), exist_ok=True)
+    os.makedirs(REPLAYS, exist_ok=True)
     code = 0
     broken = bool(res.proof_problems or res.disagreements)
     if new_fail:
         f = new_fail[0]
-        rp = os.path.join(VERIF, 'replays', f'{pid}_{res.tier}_{res.seed}.json')
+        rp = os.path.join(REPLAYS, f'{pid}_{res.tier}_{res.seed}.json')
         with open(rp, 'w') as fh:
             json.dump({'property': pid, 'kind': 'failing-input', 'tier': res.tier, 'seed': res.seed, 'failure': f,
                        'other_failures': new_fail[1:10], 'n_failures': len(new_fail),
@@ -445,7 +446,7 @@ def finish(res, level='proof'):
         print(f'VIOLATION property={pid} replay={rp}')
         code = 1
     elif broken:
-        rp = os.path.join(VERIF, 'replays', f'{pid}_{res.tier}_{res.seed}.json')
+        rp = os.path.join(REPLAYS, f'{pid}_{res.tier}_{res.seed}.json')
         with open(rp, 'w') as fh:
             json.dump({'property': pid, 'kind': 'broken-obligation-or-tie', 'tier': res.tier, 'seed': res.seed,
                        'no_longer_checks': res.proof_problems,
@@ -472,8 +473,9 @@ def finish(res, level='proof'):
         'wall_s': round(time.time() - res.t0, 2),
         'violations': len(new_fail) + (1 if (broken and not new_fail) else 0),
     }
-    os.makedirs(os.path.join(VERIF, 'evidence'), exist_ok=True)
-    with open(os.path.join(VERIF, 'evidence', f'{pid}.json'), 'w') as fh:
+    evdir = os.environ.get('VERIF_EVIDENCE_DIR') or os.path.join(VERIF, 'evidence')      # (the self-test harness writes elsewhere)
+    os.makedirs(evdir, exist_ok=True)
+    with open(os.path.join(evdir, f'{pid}.json'), 'w') as fh:
         json.dump(ev, fh, indent=1, default=str)
     status = 'PASS' if code == 0 else 'FAIL'
     print(f'{status} {pid} tier={res.tier} seed={res.seed} obligations={len(res.discharged)}/{len(res.obligations)} '
